@@ -425,3 +425,51 @@ Definition initial_ctx : ctx := [
 
 (* the observable the property compares: the ModHash records in context order *)
 Definition ctx_obs (c : ctx) : list hmod := map y_mod c.
+
+(* ---- the change counter across lys_set_implemented / ly_ctx_load_module ----
+   lys_set_features() (schema_features.c) sets its local [change] when a feature is switched on or off and answers
+   LY_EEXIST when nothing changed; _lys_set_implemented() (tree_schema.c) counts one event for an implemented module
+   whose features changed, lys_implement() (schema_compile.c) one event for every module it makes implemented (the
+   module itself and, through lys_precompile_augments_deviations, its targets); lys_parse_in() one event per module
+   added and lys_compile() one per module compiled (none of the latter with LY_CTX_EXPLICIT_COMPILE before
+   ly_ctx_compile).  The two booleans are the seeded variants kept for the regression examples:
+   count_disable = false: the disable arm of the explicit-list branch does not set [change];
+   count_impl = false: lys_implement does not count.  The code is (true, true). *)
+Definition feat_change (count_disable : bool) (fs : fspec) (f : feat) : bool :=
+  match fs with
+  | F_keep => false
+  | F_all => negb (f_en f)
+  | F_list names => if existsb (beq_bytes (f_name f)) names then negb (f_en f) else count_disable && f_en f
+  end.
+Definition sf_change (count_disable : bool) (h : hmod) (fs : fspec) : bool :=
+  existsb (feat_change count_disable fs) (concat (groups h)).
+Definition si_events (count_disable count_impl : bool) (m : ymod) (fs : fspec) : N :=
+  if y_impl m then (if sf_change count_disable (y_mod m) fs then 1 else 0) else (if count_impl then 1 else 0).
+Definition impl_count (c : ctx) : nat := length (filter y_impl c).
+
+(* lys_set_implemented(mod, features) on the module with key k under LY_CTX_EXPLICIT_COMPILE: the new context and the
+   number of counter events *)
+Definition set_impl_op (count_disable count_impl : bool) (c : ctx) (k : mkey) (fs : fspec) : res (ctx * N) :=
+  match find_key k c with
+  | None => Err E_NOTFOUND
+  | Some m =>
+      match set_implemented c k fs with
+      | Err e => Err e
+      | Ok c2 =>
+          let c3 := implement_deps c2 k in
+          Ok (c3, si_events count_disable count_impl m fs +
+                  (if count_impl then N.of_nat (impl_count c3 - impl_count c2) else 0))
+      end
+  end.
+
+(* ly_ctx_load_module(name, revision, features) under LY_CTX_EXPLICIT_COMPILE: one more event per module added *)
+Definition load_op (count_disable count_impl : bool) (src : list ymod) (c : ctx) (name : bytes) (rev : option bytes)
+    (fs : fspec) : res (ctx * N) :=
+  match parse_load (S (length src)) src [] c (name, rev) with
+  | Err e => Err e
+  | Ok (c1, k) =>
+      match set_impl_op count_disable count_impl c1 k fs with
+      | Err e => Err e
+      | Ok (c3, n) => Ok (c3, N.of_nat (length c1 - length c) + n)
+      end
+  end.
